@@ -42,10 +42,25 @@ func driveUnify(c *Ctx) error {
 			for i, t := range types {
 				tproj[i] = ProjectType(t)
 			}
+			orig := append([]cty.Type(nil), types...)
+			reread := func(l []cty.Type) string { // the caller's list and the input types themselves, as they report now
+				pl := make([]any, 0, 2*len(l))
+				for _, t := range l {
+					pl = append(pl, ProjectType(t))
+				}
+				for _, t := range orig {
+					pl = append(pl, ProjectType(t))
+				}
+				return digestOf(pl)
+			}
 			for _, unsafe := range []bool{false, true} {
+				types = append([]cty.Type(nil), orig...) // the list handed to Unify
+				it := reread(types)
 				r, ty, convs := unifyRes(types, unsafe)
-				other, _, _ := unifyRes(types, !unsafe)
-				ev := J{"ev": "unify", "types": tproj, "unsafe": unsafe, "r": r, "other": other}
+				it2 := reread(types)
+				types = orig
+				other, _, _ := unifyRes(append([]cty.Type(nil), orig...), !unsafe)
+				ev := J{"ev": "unify", "types": tproj, "unsafe": unsafe, "r": r, "other": other, "it": it, "it2": it2}
 				cl := []any{}
 				if r["ok"] == true {
 					for i, cv := range convs {
